@@ -158,7 +158,7 @@ def c01_transparency(tier="quick", seed=0):
     ex = S.fn("microjs.vm", "VM._execute")
     import ast
     conv = sorted({nm for hh in ast.walk(ex) if isinstance(hh, ast.ExceptHandler) for nm in S.handler_type_names(hh)})
-    ok = all(nm in ("JSTypeError", "JSReferenceError", "JSRangeError", "NativeUnwind") for nm in conv)
+    ok = all(nm in ("JSTypeError", "JSReferenceError", "JSRangeError", "JSSyntaxError", "NativeUnwind") for nm in conv)
     out.append(ob("C01.transparency.execute-converts-only-script-errors", ok, "K3", f"VM._execute converts {conv} into script exceptions"))
     return out
 
